@@ -20,6 +20,7 @@ import (
 	"github.com/dolthub/dolt/go/store/hash"
 
 	"verif/harness/internal/hx"
+	"verif/harness/internal/replfault"
 	"verif/harness/internal/sqleng"
 )
 
@@ -75,7 +76,7 @@ func runRawPull(e *hx.Env, m *hx.Model, k kase) {
 	lcs := csOf(w.localDB("a"))
 	rdb := w.remoteDB()
 	rcs := csOf(rdb)
-	fs, err := wrapStore(rcs)
+	fs, err := replfault.WrapStore(rcs)
 	if err != nil {
 		panic(err)
 	}
@@ -100,7 +101,7 @@ func runRawPull(e *hx.Env, m *hx.Model, k kase) {
 	fileSz := uint64(hx.Pick(w.r, []int{2 << 10, 8 << 10, 32 << 10}))
 
 	attempt := func(kind string, at int) (string, []string, bool) {
-		plan.set(kind, at, false)
+		replfault.Plan.Set(kind, at, false)
 		var perr error
 		p, err := pull.NewPuller(ctx, tmp, fileSz, lcs, fs, walk, []hash.Hash{target}, nil)
 		if err == pull.ErrDBUpToDate {
@@ -110,7 +111,7 @@ func runRawPull(e *hx.Env, m *hx.Model, k kase) {
 		} else {
 			perr = p.Pull(ctx)
 		}
-		calls, fired, _ := plan.clear()
+		calls, fired, _ := replfault.Plan.Clear()
 		cls := "ok"
 		if perr != nil {
 			if strings.Contains(perr.Error(), "injected") {
@@ -210,9 +211,9 @@ func runRawPull(e *hx.Env, m *hx.Model, k kase) {
 		}
 		return wdb.FastForwardToHash(ctx, br, target)
 	}
-	plan.set("C", 0, false)
+	replfault.Plan.Set("C", 0, false)
 	err = move()
-	_, fired, _ := plan.clear()
+	_, fired, _ := replfault.Plan.Clear()
 	desc := fmt.Sprintf("rawpull ref update force=%v fault=C0 -> %v", force, err)
 	w.logf("%s", desc)
 	if fired {
